@@ -91,6 +91,7 @@ class State:
         self.lazy_checks = []   # obligations of code evaluated lazily while this state reads
         self.guard_stack = []   # goal evaluation: guards (quantifier ranges, implies-antecedents)
         self.trace = []
+        self.count_aggs = []    # COUNT reductions given an integer value on this path
 
     def clone(self, memo=None):
         memo = {} if memo is None else memo
@@ -98,6 +99,7 @@ class State:
         s.env = {k: _clone(v, memo) for k, v in self.env.items()}
         s.pc = list(self.pc)
         s.facts = list(self.facts)
+        s.count_aggs = list(self.count_aggs)
         s.checks = list(self.checks)
         s.trace = list(self.trace)
         return s
@@ -1278,6 +1280,11 @@ class Executor:
         return out
 
     def compare(self, op, a, b, st):
+        from . import prims as _pr
+        if isinstance(a, _pr.SAgg) and a.kind == 'COUNT':
+            a = _pr.count_term(self, a, st)
+        if isinstance(b, _pr.SAgg) and b.kind == 'COUNT':
+            b = _pr.count_term(self, b, st)
         if isinstance(op, (ast.Is, ast.IsNot)):
             if (a is None or b is None) and isinstance(b if a is None else a, (SObj, SOpt)) \
                     and getattr(b if a is None else a, 'none_if', None) is not None:
